@@ -365,11 +365,12 @@ pub fn run(args: &Args) -> ! {
     order.sort_by_key(|i| mix(ctx.seed(), "order", *i as u64));
     let cases: Vec<FaultCase> = order.into_iter().map(|i| cases[i].clone()).collect();
     ctx.run_enum("faults", &cases, ctx.tier() == Tier::Thorough, check_case);
-    for k in ["Ctehexml", "Cte", "Kyg", "Tbl"] {
+    for k in ["Ctehexml", "Cte"] {
         ctx.require_class(&format!("faults/{}/delete-line/err", k));
     }
-    ctx.require_class("faults/Ctehexml/intact/ok");
-    ctx.require_class("faults/Cte/intact/ok");
+    for k in ["Ctehexml", "Cte", "Kyg", "Tbl"] {
+        ctx.require_class(&format!("faults/{}/intact/ok", k));
+    }
     ctx.finish()
 }
 
